@@ -60,11 +60,11 @@ def family_small(n, seed, with_ad=True):
     return out
 
 
-def cyclic_family(n, seed, evidence=0.5, neg=0.1):
+def cyclic_family(n, seed, evidence=0.5, neg=0.1, neg_derived=0.0):
     """Propositional programs with dense POSITIVE cycles and shared sub-goals: 3-4 facts, 4-6 derived atoms with 1-3
     clauses of 1-2 literals each, 2-3 queries, optional evidence ON DERIVED (cyclic) atoms, rare stratified negation
     (only of facts).  Targets cycle breaking (memo reuse), evidence below cycles and node sharing between goals."""
-    rng = random.Random(seed * 7907 + 5)
+    rng = random.Random(seed * 7907 + 5 + int(neg_derived * 1000))
     out, seen, tries = [], set(), 0
     while len(out) < n and tries < 40 * n + 100:
         tries += 1
@@ -82,7 +82,7 @@ def cyclic_family(n, seed, evidence=0.5, neg=0.1):
                     b = []
                     for _ in range(rng.randint(1, 2)):
                         if rng.random() < 0.6:
-                            b.append(lit(atom(rng.choice(der))))
+                            b.append(lit(atom(rng.choice(der)), 0 if rng.random() < neg_derived else 1))
                         else:
                             b.append(lit(atom(rng.choice(facts)), 0 if rng.random() < neg else 1))
                 bodies.append(b)
@@ -109,6 +109,114 @@ def cyclic_family(n, seed, evidence=0.5, neg=0.1):
         if rng.random() < evidence:
             for e in rng.sample(der, rng.randint(1, 2)):
                 p["evidence"].append({"atom": atom(e), "s": 1 if rng.random() < 0.7 else 0})
+        c = progs.canon(p)
+        if c in seen:
+            continue
+        seen.add(c)
+        out.append(p)
+    return out
+
+
+def ad_family(n, seed):
+    """Propositional programs around annotated disjunctions with 2-5 heads (sum exactly 1 or below), bodies, several ADs
+    sharing heads, rules that use the heads, evidence (also negative) on heads and on rule atoms."""
+    rng = random.Random(seed * 5003 + 11)
+    out, seen, tries = [], set(), 0
+    while len(out) < n and tries < 60 * n + 100:
+        tries += 1
+        p = progs.empty_program(["c1"])
+        facts = ["v", "w"][:rng.randint(1, 2)]
+        for f in facts:
+            p["facts"].append({"p": [rng.choice([1, 2, 3]), 4], "atom": atom(f)})
+        names = ["a", "b", "c", "d", "e"]
+        for _ in range(rng.randint(1, 2)):
+            k = rng.randint(2, 5)
+            hs = rng.sample(names, k)
+            den = 10
+            cuts = sorted(rng.sample(range(1, den), k - 1)) if rng.random() < 0.5 else None
+            if cuts:      # sums to exactly one
+                vals = [b - a for a, b in zip([0] + cuts, cuts + [den])]
+            else:
+                vals = [rng.randint(1, max(1, 8 // k)) for _ in range(k)]
+            body = []
+            if rng.random() < 0.4:
+                body = [lit(atom(rng.choice(facts)), 0 if rng.random() < 0.3 else 1)]
+            p["ads"].append({"heads": [{"p": [v, den], "atom": atom(h)} for h, v in zip(hs, vals)], "body": body})
+        used = sorted({h["atom"]["f"] for ad in p["ads"] for h in ad["heads"]})
+        der = ["q", "r", "s"][:rng.randint(1, 3)]
+        for d in der:
+            for _ in range(rng.randint(1, 2)):
+                b = [lit(atom(rng.choice(used + facts + der[:1])), 0 if rng.random() < 0.2 else 1) for _ in range(rng.randint(1, 2))]
+                b = [l for l in b if not (l["s"] == 0 and l["atom"]["f"] in der)]
+                if b:
+                    p["rules"].append({"head": atom(d), "body": b})
+        defined = {r["head"]["f"] for r in p["rules"]}
+        qs = [d for d in der if d in defined] + rng.sample(used, min(len(used), rng.randint(0, 2)))
+        if not qs:
+            continue
+        for q in qs:
+            p["queries"].append(atom(q))
+        if rng.random() < 0.5:
+            e = rng.choice(used + [d for d in der if d in defined])
+            p["evidence"].append({"atom": atom(e), "s": 0 if rng.random() < 0.5 else 1})
+        c = progs.canon(p)
+        if c in seen:
+            continue
+        seen.add(c)
+        out.append(p)
+    return out
+
+
+def negloop_templates(n, seed):
+    """A negative loop (p -> not s -> ... -> p, possibly with an earlier non-negative proof of p) that is reached from
+    inside / outside a positive cycle which is still open, closed, or absent; ground atoms, 2-3 facts."""
+    rng = random.Random(seed * 6007 + 3)
+    out, seen, tries = [], set(), 0
+    while len(out) < n and tries < 60 * n + 100:
+        tries += 1
+        p = progs.empty_program(["c1"])
+        facts = ["a", "b", "c"][:rng.randint(2, 3)]
+        for f in facts:
+            p["facts"].append({"p": [rng.choice([1, 2, 3]), 4], "atom": atom(f)})
+        R = []
+        # the negative loop
+        chain = ["s", "u"][:rng.randint(1, 2)]
+        pclauses = []
+        if rng.random() < 0.7:
+            pclauses.append([lit(atom(rng.choice(facts)))])
+        pclauses.append([lit(atom(chain[0]), 0)] + ([lit(atom(rng.choice(facts)))] if rng.random() < 0.3 else []))
+        if rng.random() < 0.3:
+            rng.shuffle(pclauses)
+        for b in pclauses:
+            R.append(("p", b))
+        for i, c in enumerate(chain):
+            nxt = chain[i + 1] if i + 1 < len(chain) else "p"
+            R.append((c, [lit(atom(nxt))]))
+            if rng.random() < 0.3:
+                R.append((c, [lit(atom(rng.choice(facts)))]))
+        # a positive cycle that reaches p
+        shape = rng.choice(["open", "closed", "none", "inside"])
+        if shape in ("open", "closed", "inside"):
+            cyc = [("r", [lit(atom("x"))]), ("x", [lit(atom("r"))]), ("x", [lit(atom("p"))])]
+            if shape == "closed":
+                cyc.insert(0, ("r", [lit(atom(rng.choice(facts)))]))
+            if shape == "inside":
+                R.append(("p", [lit(atom("r"))]))
+            if rng.random() < 0.4:
+                rng.shuffle(cyc)
+            R += cyc
+            q = ["r"]
+        else:
+            R.append(("r", [lit(atom("p")), lit(atom(rng.choice(facts)))]))
+            q = ["r"]
+        if rng.random() < 0.3:
+            rng.shuffle(R)
+        for h, b in R:
+            p["rules"].append({"head": atom(h), "body": b})
+        if rng.random() < 0.3:
+            q.append("p")
+        for x in q:
+            p["queries"].append(atom(x))
         c = progs.canon(p)
         if c in seen:
             continue
@@ -265,7 +373,10 @@ def relational(ctx, P, J, per_prog_runs, base="default", clause="variant-disagre
                         diff = "%s: %s gives %r, %s gives %r" % (k, base, ba[k], vn, ra[k])
                         break
             if diff:
-                er = r if r.get("error") else b
+                # the signature carries the raise site of the more specific failure (an internal exception wins)
+                cands = [x for x in (r, b) if x.get("error")]
+                cands.sort(key=lambda x: 0 if not x.get("problog_error") else 1)
+                er = cands[0] if cands else r
                 sig = {"clause": clause, "variant": vn.split("#")[0]}
                 if er.get("error"):
                     sig.update({"error": er["error"], "site": er.get("site", ""), "chain": er.get("chain", "")})
